@@ -454,7 +454,34 @@ func TestC17Conc(t *testing.T) {
 		var tag uint32
 		m := newSModel()
 		progs := make([][]sOp, nclients)
+		// focused: client 0 only reads file 2, the others rewrite it (size and bytes change together); before that,
+		// file 2 gets contents and the journal is left to install them, so that client 0's reads go to the device
+		focused := rapid.Bool().Draw(t, "focused")
+		var prefix []sOp
+		if focused {
+			tag++
+			prefix = append(prefix, sOp{Kind: "write", Inum: 2, Off: 0, Cnt: 0, Data: patternData(tag, uint64(pick(t, []int{10, 100, 4096}, "len0"))), Which: 2})
+			prefix[0].Cnt = uint32(len(prefix[0].Data))
+			for c := range progs {
+				for i := 0; i < rapid.IntRange(1, 3).Draw(t, "fnops"); i++ {
+					if c == 0 {
+						progs[c] = append(progs[c], pick(t, []sOp{{Kind: "read", Inum: 2, Off: 0, Cnt: simpleMax}, {Kind: "getattr", Inum: 2}, {Kind: "read", Inum: 2, Off: 5, Cnt: 10}}, "rop"))
+						continue
+					}
+					if rapid.Bool().Draw(t, "trunc") {
+						progs[c] = append(progs[c], sOp{Kind: "setattr", Inum: 2, Size: uint64(pick(t, []int{0, 5, 50, 4096}, "size")), SetSz: true})
+					} else {
+						tag++
+						data := patternData(tag, uint64(pick(t, []int{5, 20, 200, 4096}, "len")))
+						progs[c] = append(progs[c], sOp{Kind: "write", Inum: 2, Off: 0, Cnt: uint32(len(data)), Data: data, Which: rapid.IntRange(0, 2).Draw(t, "stable")})
+					}
+				}
+			}
+		}
 		for c := range progs {
+			if focused {
+				break
+			}
 			for i := 0; i < rapid.IntRange(2, 6).Draw(t, "nops"); i++ {
 				o := genSOp(t, m, &tag, true)
 				o.Inum = uint64(pick(t, []int{2, 2, 3}, "file"))
@@ -464,14 +491,40 @@ func TestC17Conc(t *testing.T) {
 				progs[c] = append(progs[c], o)
 			}
 		}
+		// one client may be held at one of its disk accesses (a slow device) until the others are done
+		var pause *DiskPause
+		if rapid.IntRange(0, 2).Draw(t, "pause") > 0 {
+			pause = NewDiskPause(rapid.IntRange(0, 7).Draw(t, "access"), 5*time.Millisecond)
+			d.SetHook(pause.Hook)
+			defer d.SetHook(nil)
+		}
 		var clock int64
 		var mu sync.Mutex
 		var ops []porcupine.Operation
+		for _, o := range prefix {
+			call := atomic.AddInt64(&clock, 1)
+			res := sCall(n, o)
+			ops = append(ops, porcupine.Operation{ClientId: nclients + 1, Input: o, Call: call, Output: res, Return: atomic.AddInt64(&clock, 1)})
+		}
+		if focused {
+			d.WaitQuiet(300*time.Microsecond, 30*time.Millisecond)
+		}
 		var wg sync.WaitGroup
+		var others sync.WaitGroup
+		others.Add(nclients - 1)
 		for c := range progs {
 			wg.Add(1)
 			go func(c int) {
 				defer wg.Done()
+				if pause != nil {
+					if c == 0 {
+						pause.Enter()
+						defer pause.Reach()
+					} else {
+						defer others.Done()
+						<-pause.Reached()
+					}
+				}
 				for _, o := range progs[c] {
 					call := atomic.AddInt64(&clock, 1)
 					res := sCall(n, o)
@@ -482,7 +535,13 @@ func TestC17Conc(t *testing.T) {
 				}
 			}(c)
 		}
+		if pause != nil {
+			go func() { others.Wait(); pause.Release() }()
+		}
 		wg.Wait()
+		if pause != nil && pause.Paused.Load() {
+			St.Class("conc_with_a_client_held_at_a_disk_access")
+		}
 		for _, inum := range []uint64{2, 3} {
 			for _, o := range []sOp{{Kind: "getattr", Inum: inum}, {Kind: "read", Inum: inum, Cnt: simpleMax}} {
 				call := atomic.AddInt64(&clock, 1)
